@@ -487,10 +487,13 @@ fn failed_appends(report: &Report) {
     use std::sync::atomic::{AtomicI64, Ordering};
     struct FailEnv {
         left: Arc<AtomicI64>,
+        /// "log.append": the append fails before anything is written; "log.flush": the frame has been
+        /// handed to the log's writer and the flush that puts it on disk fails (a full disk)
+        at: &'static str,
     }
     impl crate::sched::ActorEnv for FailEnv {
         fn fail(&self, name: &str) -> bool {
-            if name != "log.append" {
+            if name != self.at {
                 return false;
             }
             let v = self.left.load(Ordering::SeqCst);
@@ -517,12 +520,12 @@ fn failed_appends(report: &Report) {
     ];
     let pres: Vec<Vec<H>> = vec![vec![H::Msg], vec![H::RunSpawnOnly, H::Msg], vec![H::Msg, H::Cursor(0), H::Ckpt(0), H::Msg]];
     let mids: Vec<Vec<H>> = vec![vec![], vec![H::Restart], vec![H::DropCaches, H::Restart]];
-    let mut cases: Vec<(Vec<H>, usize, usize)> = Vec::new();
+    let mut cases: Vec<(Vec<H>, usize, usize, &'static str)> = Vec::new();
     for pre in &pres {
         for mid in &mids {
             for op in &failing {
                 for k in 0..3usize {
-                    for again in [false, true] {
+                    for (again, seam) in [(false, "log.append"), (true, "log.append"), (false, "log.flush"), (true, "log.flush")] {
                         let mut h = pre.clone();
                         h.extend(mid.iter().cloned());
                         let at = h.len();
@@ -531,7 +534,7 @@ fn failed_appends(report: &Report) {
                             h.push(op.clone());
                         }
                         h.push(H::Msg);
-                        cases.push((h, at, k));
+                        cases.push((h, at, k, seam));
                     }
                 }
             }
@@ -539,12 +542,12 @@ fn failed_appends(report: &Report) {
     }
     report.set_extra("failed_append_histories", json!(cases.len()));
     let failed_total = std::sync::atomic::AtomicUsize::new(0);
-    cases.par_iter().for_each_init(crate::fixture::new_rt, |rt, (hist, at, k)| {
+    cases.par_iter().for_each_init(crate::fixture::new_rt, |rt, (hist, at, k, seam)| {
         if report.over_cap() {
             return;
         }
         let left = Arc::new(AtomicI64::new(-1));
-        crate::sched::set_thread_env(Some(Box::new(FailEnv { left: left.clone() })));
+        crate::sched::set_thread_env(Some(Box::new(FailEnv { left: left.clone(), at: seam })));
         let mut fx = Fx::new(rt.clone());
         let thread = fx.store().ensure_default().expect("thread");
         let mut t = Track::new(thread.clone());
@@ -563,12 +566,12 @@ fn failed_appends(report: &Report) {
             failed_total.fetch_add(1, Ordering::SeqCst);
             report.count("ops_in_which_a_log_append_failed", 1);
         }
-        report.eval(Some(&("failed_append", hist.iter().map(name).collect::<Vec<_>>(), at, k)));
-        let case = json!({"engine": "H-histories", "harness": "c01.failed_appends", "history": hist.iter().map(name).collect::<Vec<_>>(), "failing_log_append": {"op_index": at, "append_no": k}});
+        report.eval(Some(&("failed_append", hist.iter().map(name).collect::<Vec<_>>(), at, k, seam)));
+        let case = json!({"engine": "H-histories", "harness": "c01.failed_appends", "history": hist.iter().map(name).collect::<Vec<_>>(), "failing_log_append": {"op_index": at, "append_no": k, "fails_at": seam}});
         let sig_op = name(&hist[*at]);
         let warm = if hist[..*at].iter().any(|h| matches!(h, H::Restart)) { "first_append_after_restart" } else { "warm" };
         if let Err((sig, msg)) = check_log(&fx, &[], "after_failed_append") {
-            report.violation(&format!("C01:{sig}:{sig_op}:{warm}"), case, &msg);
+            report.violation(&format!("C01:{sig}:{sig_op}:{warm}:{seam}"), case, &msg);
             return;
         }
         fx.restart();
@@ -578,7 +581,7 @@ fn failed_appends(report: &Report) {
             let _ = fx.store().append_message(th, "verif".into(), "user".into(), "after restart".into());
         }
         if let Err((sig, msg)) = check_log(&fx, &[], "after_failed_append_restart_append") {
-            report.violation(&format!("C01:{sig}:{sig_op}:{warm}"), case, &msg);
+            report.violation(&format!("C01:{sig}:{sig_op}:{warm}:{seam}"), case, &msg);
         }
     });
     if !report.over_cap() && failed_total.load(std::sync::atomic::Ordering::SeqCst) == 0 {
